@@ -629,6 +629,13 @@ impl<'a, R: ?Sized + std::io::BufRead> Tokenizer<'a, R> {
         let mut pending_here_doc_tokens = vec![];
         let mut drain_here_doc_tokens = false;
 
+        // In a command substitution, the `))` that closes a nested `(( ... ))` command is seen
+        // here as two terminating characters in a row; it ends the arithmetic context that
+        // the `((` started.
+        let in_command_substitution =
+            terminating_char == ')' && !self.cross_state.arithmetic_expansion;
+        let mut just_closed = false;
+
         loop {
             let cur_token = if drain_here_doc_tokens && !pending_here_doc_tokens.is_empty() {
                 if pending_here_doc_tokens.len() == 1 {
@@ -658,6 +665,7 @@ impl<'a, R: ?Sized + std::io::BufRead> Tokenizer<'a, R> {
                 continue;
             }
 
+            let cur_token_was_empty = cur_token.token.is_none();
             if let Some(cur_token_value) = cur_token.token {
                 state.append_str(cur_token_value.to_str());
 
@@ -672,6 +680,11 @@ impl<'a, R: ?Sized + std::io::BufRead> Tokenizer<'a, R> {
                 }
                 TokenEndReason::NonNewLineBlank => state.append_char(' '),
                 TokenEndReason::SpecifiedTerminatingChar => {
+                    if in_command_substitution && just_closed && cur_token_was_empty {
+                        self.cross_state.arithmetic_expansion = false;
+                    }
+                    just_closed = true;
+
                     nesting_count -= 1;
                     if nesting_count == 0 {
                         break;
@@ -681,7 +694,7 @@ impl<'a, R: ?Sized + std::io::BufRead> Tokenizer<'a, R> {
                 TokenEndReason::EndOfInput => {
                     return Err(TokenizerError::UnterminatedExpansion);
                 }
-                _ => (),
+                _ => just_closed = false,
             }
         }
 
@@ -941,15 +954,14 @@ impl<'a, R: ?Sized + std::io::BufRead> Tokenizer<'a, R> {
                                     (1, false)
                                 };
 
-                            if is_arithmetic {
-                                self.cross_state.arithmetic_expansion = true;
-                            }
+                            // The arithmetic state belongs to the construct: whatever the
+                            // nested text did to it must not leak into what follows.
+                            let saved_arithmetic = self.cross_state.arithmetic_expansion;
+                            self.cross_state.arithmetic_expansion = is_arithmetic;
 
                             self.consume_nested_construct(&mut state, ')', "(", initial_nesting)?;
 
-                            if is_arithmetic {
-                                self.cross_state.arithmetic_expansion = false;
-                            }
+                            self.cross_state.arithmetic_expansion = saved_arithmetic;
                         }
 
                         Some('[') => {
